@@ -196,15 +196,30 @@ func leafRecords(text string) string {
 func noModel() bool { return os.Getenv("C06_NOMODEL") == "1" }
 
 func (prop) Run(c core.Case) core.Outcome {
-	if c.Op != "c06" && c.Op != "c06big" {
+	if c.Op != "c06" && c.Op != "c06big" && c.Op != "c06bigsec" {
 		panic("c06: unknown op " + c.Op)
 	}
-	x := core.UnHex(c.Args["hex"])
-	cfg := c.Args["cfg"]
-	var ops []ue.Op
-	if o := c.Args["ops"]; o != "" && o != "-" {
-		ops = ue.ParseOps(o)
+	// (the case itself is what a replay file stores: its arguments are not touched)
+	args := map[string]string{}
+	for k, v := range c.Args {
+		args[k] = v
 	}
+	c = core.Case{Kind: c.Kind, Op: c.Op, Args: args}
+	var x []byte
+	var ops []ue.Op
+	bigsec := c.Op == "c06bigsec"
+	bigNote := ""
+	if bigsec {
+		// the image is built here from the parameters (bigsec.go): 16 MiB of PRNG output inside a compressed section
+		x, ops, c.Args["exp0"], c.Args["exp1"], bigNote = buildBigSec(parseBigSpec(c.Args))
+		c.Args["oracle_only"] = "1"
+	} else {
+		x = core.UnHex(c.Args["hex"])
+		if o := c.Args["ops"]; o != "" && o != "-" {
+			ops = ue.ParseOps(o)
+		}
+	}
+	cfg := c.Args["cfg"]
 	big := c.Op == "c06big"
 	if big {
 		// the blob is too large for the case file: a RAW file of `n` bytes (extended header, zero body) is
@@ -212,7 +227,7 @@ func (prop) Run(c core.Case) core.Outcome {
 		ops = []ue.Op{{Kind: "if", Where: "end", Sel: c.Args["sel"], Blob: bigFile(c.Args["n"], c.Args["shape"])}}
 		c.Args["oracle_only"] = "1"
 	}
-	res := runFiano(x, cfg, ops)
+	res := runFianoOpt(x, cfg, ops, bigsec)
 	var out core.Outcome
 	O := func(what, exp, got string) {
 		out.Checks = append(out.Checks, core.Check{Tag: "O", What: what, Exp: exp, Got: got, Sig: what})
@@ -237,7 +252,11 @@ func (prop) Run(c core.Case) core.Outcome {
 
 	// ---- oracles on the implementation's own output
 	wellFormed := c.Args["exp0"] != ""
-	if wellFormed {
+	if wellFormed && bigsec {
+		// (17 MiB of incompressible bytes: the Go reader of govalid.go instead of the list-based Lean reader)
+		out.Checks = append(out.Checks, core.Check{Tag: "M", What: "input-valid", Exp: fmt.Sprintf("ok %d", strings.Count(c.Args["exp0"], "gsec g=")),
+			Got: goValid(x)})
+	} else if wellFormed {
 		// the generator only builds images the independent reader accepts
 		out.Checks = append(out.Checks, core.Check{Tag: "M", What: "input-valid", Req: "spec-valid " + core.Hex(x), Exp: "ok"})
 	}
@@ -260,7 +279,7 @@ func (prop) Run(c core.Case) core.Outcome {
 	}
 	if fail != "" {
 		out.Class = fail
-		out.Key = fail + digestText(c.Args["hex"])
+		out.Key = fail + fnvLen(x)
 		return out
 	}
 	if wellFormed {
@@ -285,6 +304,9 @@ func (prop) Run(c core.Case) core.Outcome {
 		// (not for the 16 MiB case: there the save itself rewrites the file-system GUIDs)
 		O("edit-visible-after-save", res.decE, diffText(res.decE, res.dec1))
 	}
+	// every header the save regenerated declares the size of what it heads; a regenerated compressed section
+	// points at its payload (sechdr.go)
+	O("regenerated-headers-consistent", "ok", res.hdrs)
 	got := fnvLen(res.y2)
 	if string(res.y1) != string(res.y2) {
 		got += " " + firstDiff(res.y1, res.y2)
@@ -297,7 +319,12 @@ func (prop) Run(c core.Case) core.Outcome {
 	}
 	// the independent reader (Lean, Valid.validImage) on what was written, and on the decoded payload of
 	// every compressed section at every nesting level
-	out.Checks = append(out.Checks, core.Check{Tag: "O", What: "saved-image-valid", Req: "spec-valid " + core.Hex(res.y1), Exp: "ok", Sig: "saved-image-valid"})
+	if bigsec {
+		// the same questions asked in Go (govalid.go), every compressed section decoded by decoders that are not fiano's
+		O("saved-image-valid", fmt.Sprintf("ok %d", strings.Count(c.Args["exp1"], "gsec g=")), goValid(res.y1))
+	} else {
+		out.Checks = append(out.Checks, core.Check{Tag: "O", What: "saved-image-valid", Req: "spec-valid " + core.Hex(res.y1), Exp: "ok", Sig: "saved-image-valid"})
+	}
 	if big {
 		// the volume that received the file above 16 MiB is FFSv3 now; the enclosing one keeps its file system
 		// unless its own container file grew beyond 16 MiB as well (DESIGN §7-C06 ffs3_switch: what the code does)
@@ -317,6 +344,9 @@ func (prop) Run(c core.Case) core.Outcome {
 		if p == nil {
 			O("payload-decodes", "ok", fmt.Sprintf("compressed section #%d of the saved image does not decode from its own bytes", i))
 			continue
+		}
+		if len(p) > 4<<20 {
+			continue // (the Lean reader of section lists is list-based: payloads of 16 MiB are judged through the decoded tree only)
 		}
 		out.Checks = append(out.Checks, core.Check{Tag: "O", What: "decoded-payload-valid", Req: "spec-sections " + core.Hex(p), Exp: "ok", Sig: "decoded-payload-valid"})
 	}
@@ -338,6 +368,10 @@ func (prop) Run(c core.Case) core.Outcome {
 	if big {
 		out.Class = "ok:big:" + c.Args["shape"] + ":" + ffs3Text(res.vols1)
 	}
+	if bigsec {
+		// what the case reached: the form of the compressed section the save wrote and how far its size is from the boundary
+		out.Class = "ok:bigsec:" + c.Args["codec"] + ":" + c.Args["at"] + ":" + savedCompForm(res.tree1) + ":" + bigNote
+	}
 	out.Key = digestText(res.dec1) + fnvLen(res.y1)
 	return out
 }
@@ -349,7 +383,20 @@ func (prop) Gen(r *rand.Rand, tier string) []core.Case {
 	}
 	cs := handPicked()
 	cs = append(cs, bigCases(tier)...)
+	// round 2: the rare branches of the x86 filter inside LZMAX86 sections (inputs through the reference filter),
+	// compressed sections at the 16 MiB boundary of the section header.  Their PRNG streams are derived from r
+	// first, so that the stream of `generate` does not depend on how many of them there are.
+	rx, rb := rand.New(rand.NewSource(r.Int63())), rand.New(rand.NewSource(r.Int63()))
+	if tier == "thorough" {
+		cs = append(cs, x86Cases(rx, 240, 6)...)
+	} else {
+		cs = append(cs, x86Cases(rx, 24, 0)...)
+	}
+	cs = append(cs, bigSecCases(tier, rb)...)
 	cs = append(cs, generate(r, n)...)
+	if tier == "thorough" {
+		cs = append(cs, bigSecSlowCases(rb)...)
+	}
 	return cs
 }
 
